@@ -827,6 +827,14 @@ int liberasurecode_reconstruct_fragment(int desc,
     k = instance->args.uargs.k;
     m = instance->args.uargs.m;
 
+    if (fragment_len < sizeof(fragment_header_t)) {
+        log_error("Fragments not long enough to include headers! "
+                  "Need %zu, but got %lu.", sizeof(fragment_header_t),
+                  (unsigned long)fragment_len);
+        ret = -EBADHEADER;
+        goto out;
+    }
+
     if (destination_idx < 0 || destination_idx >= k + m) {
         log_error("Can not reconstruct fragment, destination index %d is "
                   "out of range", destination_idx);
